@@ -12,3 +12,11 @@ func vhook(point string, args ...interface{}) {
 		h(point, args...)
 	}
 }
+
+// vroot names the snowflake a heap.Pop of h would return ("" if empty).
+func vroot(h *SnowflakeHeap) string {
+	if h.Len() == 0 {
+		return ""
+	}
+	return (*h)[0].id
+}
